@@ -148,6 +148,8 @@ pub trait Attrs {
     }
     fn at_last(&mut self, v: u64) -> u64;
     extern "C" fn at_c(&self) -> u32;
+    /// same signature as `at_last`, and its name is a suffix of it
+    fn last(&mut self, v: u64) -> u64;
 }
 
 /// Lifetime- and type-parameterised trait.
@@ -220,18 +222,22 @@ pub trait ChildrenMore {
 /// Four tiny traits whose names order differently with and without regard to case
 /// (IOPort < Inspect and KVStore < KeyDumper case-sensitively; the other way round otherwise).
 #[cglue_trait]
+#[cglue_forward]
 pub trait IOPort {
     fn io_read(&self, port: u32) -> u64;
 }
 #[cglue_trait]
+#[cglue_forward]
 pub trait Inspect {
     fn inspect(&self) -> u64;
 }
 #[cglue_trait]
+#[cglue_forward]
 pub trait KVStore {
     fn kv_put(&mut self, k: u64, v: u64) -> u64;
 }
 #[cglue_trait]
+#[cglue_forward]
 pub trait KeyDumper {
     fn key_dump(&self, n: u32) -> u64;
 }
@@ -555,6 +561,10 @@ macro_rules! implementor {
             extern "C" fn at_c(&self) -> u32 {
                 self.core.enter("at_c", 0, &[]);
                 self.core.get() as u32 ^ 0xA4
+            }
+            fn last(&mut self, v: u64) -> u64 {
+                self.core.enter("last", v, &[]);
+                self.core.mix(v ^ 0x1A57).wrapping_mul(7)
             }
         }
         impl<'a> Life<'a, u64> for $name {
